@@ -189,6 +189,13 @@ type UserErr struct {
 func (e *UserErr) Error() string { return fmt.Sprintf("user error fn=%d exec=%d", e.Fn, e.Exec) }
 func (e *UserErr) Unwrap() error { return e.Inner }
 
+// NilErr: the classic typed-nil pitfall.  A user function returns error((*NilErr)(nil)): the
+// interface is non-nil, so the function has FAILED, although the pointer inside is nil.  Such a
+// value carries no fields; the harness attributes it to the last failing execution it logged.
+type NilErr struct{}
+
+func (e *NilErr) Error() string { return "typed nil user error" }
+
 var errInnerCause = errors.New("inner cause wrapped by a user error")
 
 func newUserErr(fn, exec int) *UserErr {
@@ -533,6 +540,17 @@ type runner struct {
 	poolRole      map[int]string // declared function -> "dec" when registered through Decorate
 }
 
+// anyNested: the case has re-entrant bodies (typed-nil errors, which the harness attributes by
+// position in the event log, are not used there)
+func (r *runner) anyNested() bool {
+	for _, f := range r.fns {
+		if len(f.Nested) > 0 {
+			return true
+		}
+	}
+	return false
+}
+
 func (r *runner) planAt(f *Fn, e int) string {
 	if e < len(f.Plan) {
 		return f.Plan[e]
@@ -611,6 +629,9 @@ func (r *runner) body(f *Fn, role string, args []reflect.Value) []reflect.Value 
 			ev := reflect.Zero(errType)
 			if plan == "err" {
 				ev = reflect.ValueOf(newUserErr(f.ID, e)).Convert(errType)
+				if (f.ID+e)%3 == 2 && !f.ErrConcrete && !r.anyNested() {
+					ev = reflect.ValueOf((*NilErr)(nil)).Convert(errType)
+				}
 			}
 			if f.ErrConcrete && r.planAt(f, 0) == "err" {
 				// the error result is DECLARED as the concrete type *UserErr (it implements error)
@@ -674,6 +695,16 @@ func classify(err error) *Root {
 
 func rootOf(rc error) *Root {
 	var ue *UserErr
+	if ne, ok := rc.(*NilErr); ok && ne == nil && curRunner != nil {
+		// attributed to the last execution that was planned to fail (one failure per operation)
+		evs := curRunner.events
+		for i := len(evs) - 1; i >= 0; i-- {
+			if evs[i].Ev == "exec" && evs[i].Out == "err" {
+				return &Root{K: "user", F: evs[i].F, E: evs[i].E}
+			}
+		}
+		return &Root{K: "foreign"}
+	}
 	if u, ok := rc.(*UserErr); ok {
 		ue = u
 		return &Root{K: "user", F: ue.Fn, E: ue.Exec}
@@ -718,6 +749,9 @@ func verdictOf(err error) Verdict {
 		if _, user := e.(*UserErr); user {
 			break // what a user error itself wraps is not part of dig's chain
 		}
+		if _, user := e.(*NilErr); user {
+			break
+		}
 		if len(chain) > 10000 {
 			break
 		}
@@ -742,6 +776,9 @@ func verdictOf(err error) Verdict {
 	}
 	if ue, ok := rc.(*UserErr); ok {
 		fl.IsUser = errors.Is(err, ue)
+	}
+	if ne, ok := rc.(*NilErr); ok {
+		fl.IsUser = errors.Is(err, ne)
 	}
 	msg := err.Error()
 	if len(msg) > 300 {
